@@ -244,6 +244,17 @@ def gen_C03(rng, tier):
         if n <= 70000: L.append('q 0 ser')
         L.append('q 0 size_in_bytes')
         cases.append(L)
+    # the Elias-Fano code behind a large SArray: high-bit vector with a sparse 1024-block followed by dense ones
+    for bi, (u, xs) in enumerate(big_ef_shapes(rng, tier)[:(1 if tier == 'quick' else 2)]):
+        v = 0
+        for x in set(xs): v |= 1 << x
+        ones = sorted(set(xs)); m = len(ones)
+        L = ['case C03-big-%d n=%d ones=%d' % (bi, u, m), 'new 0 sa new %s 1' % bits_lit(u, v)]
+        for k in sorted(set([0, 299, 300, 1023, 1024, 1056, 2048, m - 1, m] + [rng.randrange(0, m) for _ in range(10)])): L.append('q 0 select1 %d' % k)
+        for p_ in sorted(set([0, u, u - 1] + [ones[k] + d for k in (0, min(299, m - 1), min(1056, m - 1), m // 2, m - 1) for d in (-1, 0, 1) if 0 <= ones[k] + d] + [rng.randrange(0, u) for _ in range(10)])):
+            for q in ('access', 'rank1', 'rank0', 'predecessor1', 'successor1'): L.append('q 0 %s %d' % (q, p_))
+        L.append('q 0 size_in_bytes')
+        cases.append(L)
     return cases
 
 def mono_seq(rng, tier, ci):
@@ -730,6 +741,12 @@ def gen_C12(rng, tier):
         for i in arg_set(rng, [n, n - 1, n + 1], n, 12): L.append('q 0 access %d' % i)
         L.append('it 0 iter - %s' % ','.join(['n'] * min(n + 2, 70)))
         L.append('q 0 ser'); L.append('q 0 size_in_bytes')
+        cases.append(L)
+    for bi, (n, big, at) in enumerate([(70000, 2**40, 1200), (100000, 2**44, 50000)] if tier == 'quick' else [(70000, 2**40, 1200), (100000, 2**44, 50000), (200000, 2**50, 300)]):
+        xs = [rng.choice([1, 1, 1, 2, 0]) for _ in range(n)]; xs[at] = big
+        L = ['case C12-big-%d n=%d' % (bi, n), 'new 0 ps from_slice %s' % lst(xs), 'q 0 len', 'q 0 sum']
+        for i in sorted(set([0, at - 1, at, at + 1, at + 1023, at + 1024, at + 2048, 1023, 1024, 42211 % n, n - 1, n] + [rng.randrange(0, n) for _ in range(25)])): L.append('q 0 access %d' % i)
+        L.append('q 0 size_in_bytes')
         cases.append(L)
     for ci in range(4):
         xs = [rng.getrandbits(8) for _ in range(rng.choice([1, 70]))]; ys = [rng.getrandbits(32) for _ in range(rng.choice([1, 70]))]
